@@ -464,6 +464,22 @@ func (c *StreamCfg) unknownRecordNum(t *rapid.T, b []byte, num protowire.Number,
 		} else {
 			c.label("unknown-group")
 		}
+		if gdepth == 0 && rapid.IntRange(0, 25).Draw(t, "deepgroup") == 0 {
+			// a chain of nested groups, each level with its own field number
+			c.label("unknown-deep-group-chain")
+			depth := rapid.IntRange(4, 48).Draw(t, "chaindepth")
+			nums := []protowire.Number{num}
+			for i := 1; i < depth; i++ {
+				nums = append(nums, protowire.Number(rapid.IntRange(1, 200).Draw(t, "chainnum")))
+			}
+			for _, n := range nums {
+				b = protowire.AppendTag(b, n, protowire.StartGroupType)
+			}
+			for i := len(nums) - 1; i >= 0; i-- {
+				b = protowire.AppendTag(b, nums[i], protowire.EndGroupType)
+			}
+			return b
+		}
 		b = protowire.AppendTag(b, num, protowire.StartGroupType)
 		n := rapid.IntRange(0, 3).Draw(t, "grouplen")
 		for i := 0; i < n; i++ {
